@@ -611,12 +611,31 @@ func (rec *c06Record) auditCache() {
 			n = rd.Size()
 		}
 		buf := make([]byte, n)
-		_, err = io.ReadFull(rd.IoReader(), buf)
+		type rres struct {
+			n   int
+			err error
+		}
+		got := make(chan rres, 1)
+		go func() {
+			k, err := io.ReadFull(rd.IoReader(), buf)
+			got <- rres{k, err}
+		}()
+		var x rres
+		stalled := false
+		select {
+		case x = <-got:
+		case <-time.After(5 * time.Second): // virtual: the bytes are there or they never come
+			stalled = true
+		}
 		w.Close(nil)
 		rd.Close()
+		if stalled {
+			x = <-got
+			x.err = fmt.Errorf("reader stalls after %d bytes", x.n)
+		}
 		w.WgWait()
-		if err != nil {
-			return nil, rd, fmt.Sprintf("read:cache reports [%d,%d] but reading %d bytes at %d fails: %v", l, r, n, off, err)
+		if x.err != nil {
+			return nil, rd, fmt.Sprintf("read:cache reports [%d,%d] but reading %d bytes at %d fails: %v", l, r, n, off, x.err)
 		}
 		return buf, rd, ""
 	}
@@ -1113,6 +1132,7 @@ func runC06(t *testing.T, rep *mc.Reporter) {
 	}
 	all := c06Histories(tier)
 	done := 0
+	seen := map[string]int{}
 	for idx, scn := range all {
 		if idx%nshards != shard {
 			continue
@@ -1123,7 +1143,11 @@ func runC06(t *testing.T, rep *mc.Reporter) {
 		rep.Scenario()
 		res := c06Exec(t, scn, scratch, idx)
 		if res.Verdict == "violation" {
+			seen[res.Sig]++
+		}
+		if res.Verdict == "violation" && seen[res.Sig] <= 3 {
 			// a violation must reproduce twice more, otherwise the harness is at fault
+			// (done for the first three executions of every signature in this shard)
 			for k := 0; k < 2; k++ {
 				r2 := c06Exec(t, scn, scratch, idx)
 				if r2.Verdict != res.Verdict || r2.Sig != res.Sig {
